@@ -28,7 +28,29 @@ func decodeCorridor(e []int) corridor {
 	// end point coordinates are given in tenths
 	c.s = geom.P{X: float64(e[o]) / 10, Y: float64(e[o+1]) / 10}
 	c.t = geom.P{X: float64(e[o+2]) / 10, Y: float64(e[o+3]) / 10}
+	if len(e) == o+6 {
+		// translated corridor: the two trailing numbers move everything away from the origin (a corridor inside a layout
+		// never starts at (0,0): its top is the bottom of the source node)
+		dx, dy := float64(e[o+4]), float64(e[o+5])
+		for i := range c.L {
+			c.L[i] += dx
+			c.R[i] += dx
+		}
+		for i := range c.Y {
+			c.Y[i] += dy
+		}
+		c.s.X, c.s.Y, c.t.X, c.t.Y = c.s.X+dx, c.s.Y+dy, c.t.X+dx, c.t.Y+dy
+	}
 	return c
+}
+
+// spaceTranslated presents every corridor of sp moved by (dx, dy).
+func spaceTranslated(sp func(emit func(Input)), dx, dy int) func(emit func(Input)) {
+	return func(emit func(Input)) {
+		sp(func(in Input) {
+			emit(Input{E: append(append([]int(nil), in.E...), dx, dy)})
+		})
+	}
 }
 
 // degenerate: the start or end point is collinear with two other points among {corridor vertices, the other end
@@ -642,7 +664,7 @@ func init() {
 		return len(in.E) == 5 && in.E[0] == 5 && in.E[3] >= 3
 	}
 	inputPreds["degenerate-position"] = func(in Input, c *Cfg) bool {
-		if len(in.E) < 8 || len(in.E) != 5+3*in.E[0] {
+		if len(in.E) < 8 || (len(in.E) != 5+3*in.E[0] && len(in.E) != 7+3*in.E[0]) {
 			return false
 		}
 		cr := decodeCorridor(in.E)
@@ -681,6 +703,8 @@ func init() {
 			{Name: "fit-k4", Space: corridorSpace(4, grid5, []int{10}, true), Eval: evalC20Fit, BudgetS: 5, HeapMB: 256,
 				Bound: "every corridor of the C19 general-position space (k<=4) whose (correct) shortest path has >= 3 points: spline fitted, 401 samples per piece"},
 		}
+		ps = append(ps, &Pass{Name: "fit-k3-translated", Space: spaceTranslated(corridorSpaceD(3, grid5, []int{10}, true, true), 57, 23), Eval: evalC20Fit, BudgetS: 5, HeapMB: 256,
+			Bound: "every corridor of 1..3 rectangles on the 5-value grid (rectangles that share a side coordinate included) x 15 x 15 general-position end points, moved away from the origin by (57, 23) — where a corridor inside a layout lies"})
 		// wide corridors: horizontal sides much longer than the rectangles are high, so that a path piece runs a long way
 		// next to a side whose two corners both lie beyond the piece's own horizontal extent (the containment test must
 		// still see that side), and end points close to a horizontal side
